@@ -174,9 +174,13 @@ pub fn h2_request(variant: u64) -> Vec<u8> {
     b
 }
 
-pub struct ConnSpec { pub kind: u64, pub v6: bool, pub id: u64, pub cid: Option<u64>, pub cport: Option<u16>, pub sid: Option<u64>, pub same_host: bool, pub client_ip_opts: bool, pub force_segs: Option<usize> }
+/// `tfo`: TCP Fast Open (RFC 7413) -- the SYN itself carries ALL the client bytes (for kind 1 a complete single-segment
+/// ClientHello), no later data segments.  `bare`: no TCP options on any segment of the connection (an IPv4 SYN / ACK /
+/// FIN without payload is then exactly link header + 40 bytes: 54 on Ethernet).  Neither flag changes the random draws
+/// of a connection that does not set it.
+pub struct ConnSpec { pub kind: u64, pub v6: bool, pub id: u64, pub cid: Option<u64>, pub cport: Option<u16>, pub sid: Option<u64>, pub same_host: bool, pub client_ip_opts: bool, pub force_segs: Option<usize>, pub tfo: bool, pub bare: bool }
 impl ConnSpec {
-    pub fn new(kind: u64, v6: bool, id: u64) -> ConnSpec { ConnSpec { kind, v6, id, cid: None, cport: None, sid: None, same_host: false, client_ip_opts: false, force_segs: None } }
+    pub fn new(kind: u64, v6: bool, id: u64) -> ConnSpec { ConnSpec { kind, v6, id, cid: None, cport: None, sid: None, same_host: false, client_ip_opts: false, force_segs: None, tfo: false, bare: false } }
 }
 
 /// frames of one connection, client address derived from `id` so identities are pairwise distinct
@@ -211,26 +215,28 @@ pub fn connection(r: &mut Rng, spec: &ConnSpec, t0: u64) -> Vec<Frame> {
     let mut out: Vec<Frame> = Vec::new();
     let mut syn = Tcp::new(cport, sport, SYN); syn.seq = isn_c; syn.window = *r.pick(&[65535u16, 29200, 64240, 8192]);
     syn.options = [opt_mss(*r.pick(&[1460u16, 1400])), opt_sackok(), opt_ts(tsc(now), 0), opt_nop(), opt_ws(*r.pick(&[7u8, 8]))].concat();
+    let bare = spec.bare;
+    if bare { syn.options = vec![]; }
+    // Fast Open: the client bytes travel in the SYN and occupy sequence space from isn_c + 1
+    let tfo_bytes: Option<Vec<u8>> = if spec.tfo { Some(client_data(r, spec.kind, id)) } else { None };
+    let tfo_len = tfo_bytes.as_ref().map(|b| b.len() as u32).unwrap_or(0);
+    if let Some(b) = &tfo_bytes { syn.payload = b.clone(); }
     out.push((mk(true, syn, *r.pick(&[64u8, 128, 57])), now));
     now += 40 + r.below(100);
-    let mut sa = Tcp::new(sport, cport, SYN | ACK); sa.seq = isn_s; sa.ack = isn_c.wrapping_add(1); sa.window = 28960;
+    let mut sa = Tcp::new(sport, cport, SYN | ACK); sa.seq = isn_s; sa.ack = isn_c.wrapping_add(1 + tfo_len); sa.window = 28960;
     sa.options = [opt_mss(1460), opt_sackok(), opt_ts(tss(now), tsc(t0)), opt_nop(), opt_ws(7)].concat();
+    if bare { sa.options = vec![]; }
     out.push((mk(false, sa, 52), now));
     now += 40 + r.below(200);
-    let mut ack = Tcp::new(cport, sport, ACK); ack.seq = isn_c.wrapping_add(1); ack.ack = isn_s.wrapping_add(1);
+    let mut ack = Tcp::new(cport, sport, ACK); ack.seq = isn_c.wrapping_add(1 + tfo_len); ack.ack = isn_s.wrapping_add(1);
     ack.options = [opt_nop(), opt_nop(), opt_ts(tsc(now), tss(now))].concat();
+    if bare { ack.options = vec![]; }
     out.push((mk(true, ack, 64), now));
-    let client_bytes: Vec<u8> = match spec.kind {
-        0 => format!("GET /{} HTTP/1.1\r\nHost: example.org\r\nUser-Agent: {}\r\nAccept: */*\r\nAccept-Language: en-US,en;q=0.8\r\nCookie: a={}; b=2\r\nConnection: keep-alive\r\n\r\n", id,
-                     *r.pick(&["curl/7.68.0", "Mozilla/5.0 (X11; Linux x86_64) AppleWebKit/537.36 (KHTML, like Gecko) Chrome/120.0 Safari/537.36", "Wget/1.20"]), id).into_bytes(),
-        1 => client_hello(r),
-        3 => h2_request(id % 5),
-        _ => r.bytes(40),
-    };
-    // split the client bytes into 1..4 in-order segments
-    let nseg = spec.force_segs.unwrap_or(1 + r.below(4) as usize);
-    let mut cuts: Vec<usize> = (0..nseg - 1).map(|_| 1 + r.below(client_bytes.len() as u64 - 1) as usize).collect();
-    cuts.push(0); cuts.push(client_bytes.len()); cuts.sort(); cuts.dedup();
+    let client_bytes: Vec<u8> = match tfo_bytes { Some(b) => b, None => client_data(r, spec.kind, id) };
+    // split the client bytes into 1..4 in-order segments (Fast Open: they were all in the SYN, no data segment follows)
+    let nseg = if spec.tfo { 1 } else { spec.force_segs.unwrap_or(1 + r.below(4) as usize) };
+    let mut cuts: Vec<usize> = if spec.tfo { vec![] } else { (0..nseg - 1).map(|_| 1 + r.below(client_bytes.len() as u64 - 1) as usize).collect() };
+    if !spec.tfo { cuts.push(0); cuts.push(client_bytes.len()); } cuts.sort(); cuts.dedup();
     // a ClientHello's first segment holds at least the 5-byte record header
     if spec.kind == 1 { cuts.retain(|&c| c == 0 || c >= 5); }
     for w in cuts.windows(2) {
@@ -238,6 +244,7 @@ pub fn connection(r: &mut Rng, spec: &ConnSpec, t0: u64) -> Vec<Frame> {
         let mut d = Tcp::new(cport, sport, PSH | ACK); d.seq = isn_c.wrapping_add(1 + w[0] as u32); d.ack = isn_s.wrapping_add(1);
         d.payload = client_bytes[w[0]..w[1]].to_vec();
         d.options = [opt_nop(), opt_nop(), opt_ts(tsc(now), tss(now))].concat();
+        if bare { d.options = vec![]; }
         out.push((mk(true, d, 64), now));
     }
     if spec.kind == 0 {
@@ -245,13 +252,26 @@ pub fn connection(r: &mut Rng, spec: &ConnSpec, t0: u64) -> Vec<Frame> {
         let resp = format!("HTTP/1.1 200 OK\r\nServer: {}\r\nContent-Type: text/html\r\nContent-Length: 5\r\n\r\nhello", *r.pick(&["Apache/2.4.41 (Ubuntu)", "nginx/1.18.0"]));
         let mut e = Tcp::new(sport, cport, PSH | ACK); e.seq = isn_s.wrapping_add(1); e.ack = isn_c.wrapping_add(1 + client_bytes.len() as u32); e.payload = resp.into_bytes();
         e.options = [opt_nop(), opt_nop(), opt_ts(tss(now), tsc(now))].concat();
+        if bare { e.options = vec![]; }
         out.push((mk(false, e, 52), now));
     }
     now += 30 + r.below(100);
     let mut fin = Tcp::new(cport, sport, FIN | ACK); fin.seq = isn_c.wrapping_add(1 + client_bytes.len() as u32); fin.ack = isn_s.wrapping_add(1);
     fin.options = [opt_nop(), opt_nop(), opt_ts(tsc(now), tss(now))].concat();
+    if bare { fin.options = vec![]; }
     out.push((mk(true, fin, 64), now));
     out
+}
+
+/// what the client sends: an HTTP/1.1 request, a ClientHello record, an HTTP/2 connection start, or opaque bytes
+fn client_data(r: &mut Rng, kind: u64, id: u64) -> Vec<u8> {
+    match kind {
+        0 => format!("GET /{} HTTP/1.1\r\nHost: example.org\r\nUser-Agent: {}\r\nAccept: */*\r\nAccept-Language: en-US,en;q=0.8\r\nCookie: a={}; b=2\r\nConnection: keep-alive\r\n\r\n", id,
+                     *r.pick(&["curl/7.68.0", "Mozilla/5.0 (X11; Linux x86_64) AppleWebKit/537.36 (KHTML, like Gecko) Chrome/120.0 Safari/537.36", "Wget/1.20"]), id).into_bytes(),
+        1 => client_hello(r),
+        3 => h2_request(id % 5),
+        _ => r.bytes(40),
+    }
 }
 
 /// order-preserving random interleaving; returns (connection index, frame) pairs
